@@ -108,6 +108,10 @@ func init() {
 					if len(l.Ops) == 1 && strings.Contains(l.Ops[0].Q, "upload1(") && strings.Contains(l.Ops[0].Q, "upload(") && len(l.Files) > 1 {
 						concurrent = true
 					}
+					// one variable (an input object with a file and a list of files) consumed by two services
+					if len(l.Ops) == 1 && strings.Contains(l.Ops[0].Q, "uploadIn1(") && strings.Contains(l.Ops[0].Q, "uploadIn(") && len(l.Files) > 0 {
+						concurrent = true
+					}
 					if !concurrent || !c19Clean(w.world, w.cfg, l) {
 						continue
 					}
